@@ -41,6 +41,7 @@ type resp struct {
 	Alloc  uint64
 	Msg    string
 	Extra  string
+	Term   string // a Coq case term built by the worker (json decoder)
 }
 
 type worker struct {
@@ -116,6 +117,10 @@ func parseResp(s string) resp {
 	r.Code, _ = strconv.Atoi(f[1])
 	r.Alloc, _ = strconv.ParseUint(f[2], 10, 64)
 	r.Base, _ = strconv.ParseUint(f[6], 10, 64)
+	if len(f) > 7 {
+		t, _ := hex.DecodeString(strings.TrimPrefix(f[7], "x"))
+		r.Term = string(t)
+	}
 	if f[3] != "-" {
 		for _, x := range strings.Split(f[3], ",") {
 			v, _ := strconv.ParseUint(x, 10, 64)
@@ -245,6 +250,8 @@ func run(dec string, in []byte, class string) resp {
 			o = vh.ResErr(0)
 		}
 		out.Add(fmt.Sprintf("C %s %s %s %d", c, vh.Bytes(in), o, cls), dec+"/"+class, nontrivial, desc)
+	} else if dec == "json" && r.Term != "" {
+		out.Add(r.Term, dec+"/"+class, nontrivial, desc)
 	} else if dec == "recv" && r.Class != "hang" {
 		o := "Panic"
 		switch r.Class {
